@@ -111,6 +111,45 @@ def run(ctx):
         ctx.check("slots: vec::from_elem(Option::None, capacity)" in H.show(sb["body"]) or "Option::None" in H.show(sb["body"]), R,
                   "SuffixStore::with_capacity::starts-empty", sb["file"], "a new suffix store has only empty slots")
     ctx.guard(R, "frame_reset", frame_reset)
+
+    def vec_pool():
+        """get_next_space hands a pooled buffer out as it is, and the block loop reads the source into the whole of it:
+        a buffer may enter the pool only at full length (`x.resize(x.capacity(), 0)` right before the push) — a short or
+        empty one makes the next block end early, i.e. input is dropped without any error"""
+        crate_ = ctx.crate()
+        n = 0
+        for path, b in sorted(crate_.hir.items()):
+            if b.get("body") is None or b.get("inlined_everywhere") or "match_generator" not in path and "encoding" not in path:
+                continue
+            cf = hq.Canon(b, force=True)
+            ix = hq.Index(b)
+            for x in hq.find(b["body"], lambda x: x.get("k") == "MethodCall" and x["name"] == "push" and len(x.get("args") or ()) == 1):
+                r = cf(x["recv"])
+                if not r.replace("&mut ", "").replace("(", "").replace(")", "").endswith("self.vec_pool"):
+                    continue
+                n += 1
+                arg = hq.peel(x["args"][0])
+                ok = False
+                obs = None
+                if arg.get("k") == "Local":
+                    blk = next((a for a in ix.ancestors(x) if a.get("k") == "Block"), None)
+                    end_ = lambda s_: (s_.get("sp") or (s_.get("e") or s_.get("init") or {}).get("sp") or [0, 1 << 60])[1]
+                    prev = [s_ for s_ in (blk["stmts"] if blk else ()) if end_(s_) <= x["sp"][0]]
+                    last = hq.peel(prev[-1].get("e") or {}) if prev else {}
+                    obs = H.show(last)[:80] if last else None
+                    if last.get("k") == "MethodCall" and last["name"] == "resize" and len(last["args"]) == 2:
+                        rv, a0 = hq.peel(last["recv"]), hq.peel(last["args"][0])
+                        ok = rv.get("k") == "Local" and rv["lid"] == arg["lid"] and H.lit_val(hq.peel(last["args"][1])) == 0 and \
+                            a0.get("k") == "MethodCall" and a0["name"] == "capacity" and hq.peel(a0["recv"]).get("k") == "Local" and hq.peel(a0["recv"])["lid"] == arg["lid"]
+                ctx.check(ok, R, "%s::pooled-buffer-full-length#%d" % (H.short(path), n), H.loc(b, x),
+                          "a buffer pushed into vec_pool must have been resized to its capacity in the statement before "
+                          "(get_next_space hands it out unchanged and the block loop fills all of it)", observed=obs)
+        ctx.check(n >= 2, R, "vec_pool::push-sites", "", "push sites of the buffer pool found", observed=n)
+        gb = ctx.hir("<ruzstd::encoding::match_generator::MatchGeneratorDriver as ruzstd::encoding::Matcher>::get_next_space")
+        v = hq.Canon(gb, force=True, inline=True, max_depth=5)(hq.tail_expr(gb["body"]))
+        ctx.check("Vec::pop(self.vec_pool)" in v.replace("&mut ", "") and "unwrap_or_else" in v, gb and R, "get_next_space::pool-or-fresh", gb["file"],
+                  "get_next_space returns a pooled buffer as it is, or a fresh full-length one", observed=v[:160])
+    ctx.guard(R, "vec_pool", vec_pool)
     ctx.floor(R, len([o for o in ctx.obs if o.rule == R and o.cfg == ctx.cfg]), 12, "frame reset obligations")
 
     RO = "C02.order.mirror"
